@@ -108,6 +108,62 @@ def semantic(case, orig, ex):
     return ("violation", mv)
 
 
+def strip_null(t):
+    return (t or "").replace(";N", "")
+
+
+def unplannable_class(err):
+    """Named classes of 'generated SQL does not plan' (C38, optimized plans); an unlisted message gets its own key."""
+    if re.search(r"Schema error: No field named ", err):
+        return "column reference not exposed by the generated sub-select (No field named)"
+    if "Projections require unique expression names" in err:
+        return "duplicate expression names in a generated projection"
+    if "SELECT * with no tables specified" in err:
+        return "SELECT * with no tables"
+    if re.search(r"not supported for Null|No function matches the given name and argument types .*\(Null", err):
+        return "function applied to a bare (untyped) NULL"
+    if "join condition should not be empty" in err:
+        return "outer join with an empty condition written without ON"
+    return "other:" + sig(err)[:60]
+
+
+def semantic_key(mode, name, case, v, msg, ex):
+    """Narrow class of a witness-confirmed semantic disagreement (known_findings.json keys)."""
+    pt, gen = v.get("plan_text", ""), v.get("sql") or ""
+    feats = sqlcases.features_of(case["plan"]) if "plan" in case else set()
+    failed = "err" in ex and ex.get("err")
+    if mode == "c35":
+        if failed and "LIMIT must be >= 0" in msg and re.search(r"Limit: skip=\d+, fetch=None", pt):
+            return "Limit.fetch None decoded as i64::MAX"
+    if mode == "c37":
+        if failed and "scalar_subquery_to_join" in msg and "which would be ambiguous" in msg and "(<subquery>)" in pt:
+            return "scalar subquery: consumed plan fails in scalar_subquery_to_join (qualified/unqualified field ambiguous)"
+        if failed and "decorrelate_predicate_subquery" in msg and "unique expression names" in msg and "outer_ref(" in pt:
+            return "correlated subquery: consumed plan fails in decorrelate_predicate_subquery (duplicate expression names)"
+        if failed and "type_coercion" in msg and re.search(r"Schema error: No field named (left|right)\.", msg) and "Join" in pt:
+            return "consumed join: expressions refer to a side the consumer renamed (No field named left./right.)"
+        if failed and "type_coercion" in msg and re.search(r"Schema error: No field named t\d\.c\d", msg) and "Join" in pt:
+            return "consumed self/multi-table join: column qualified with the wrong table (No field named tN.cN)"
+        if failed and "type_coercion" in msg and re.search(r"Schema contains qualified field name \S+ and unqualified field name \S+ which would be ambiguous", msg) and ("Join" in pt or "Union" in pt):
+            return "consumed join/union: qualified field ambiguous with an unqualified one (type_coercion)"
+        if not failed and name == "unoptimized" and "outer_ref(" in pt:
+            return "correlated subquery (outer_ref): consumed plan returns different rows"
+    if mode in ("c37", "c38") and not failed and name == "optimized" and "null_aware" in pt:
+        return "null-aware anti join (NOT IN) loses its null awareness"
+    if mode == "c38" and not failed:
+        if (feats & {"setop:except", "setop:except:all", "setop:intersect", "setop:intersect:all"}) and "EXISTS (SELECT 1" in gen:
+            return "EXCEPT/INTERSECT anti/semi join unparsed as [NOT] EXISTS with '=' (NULL-equal keys lost)"
+        if re.search(r"NOT [\w.]+ IS (NOT )?(TRUE|FALSE|UNKNOWN|NULL)", gen) and re.search(r"NOT [\w.]+ IS ", pt):
+            return "(NOT x) IS [NOT] TRUE/FALSE/UNKNOWN/NULL unparsed without parentheses (binds as NOT (x IS ..))"
+        if name == "optimized" and "EmptyRelation: rows=0" in pt and re.search(r"SELECT [^()]*\)? AS \w+( FROM \()?$|SELECT count\(", gen) and " FROM " not in gen.split("EmptyRelation")[0][-0:] + "":
+            pass
+        if name == "optimized" and "EmptyRelation: rows=0" in pt and "Aggregate:" in pt:
+            return "optimized plan: aggregate over EmptyRelation rows=0 unparsed as a FROM-less SELECT (one input row)"
+        if name == "optimized" and re.search(r"Limit: skip=\d+, fetch=\d+\n\s*Sort: .*fetch=\d+", pt):
+            return "optimized plan: Limit over Sort with fetch: the sort's fetch is written as the LIMIT"
+    return "result differs"
+
+
 def classify(mode, case, r):
     """Yield (kind, key, detail) issues for one harness record."""
     orig = r.get("orig", {})
@@ -118,38 +174,49 @@ def classify(mode, case, r):
             yield ("count", "enc_err:" + sig(v["enc_err"])[:60], None)
             continue
         if "dec_err" in v:
+            err = v["dec_err"]
             if mode == "c37":
-                yield ("count", "consumer_rejects:" + sig(v["dec_err"])[:60], None)
+                yield ("count", "consumer_rejects:" + sig(err)[:60], None)
             elif mode == "c38":
-                yield ("violation", f"generated SQL of the {name} plan does not plan", {"variant": name, "sql": v.get("sql"), "error": v["dec_err"][:400], "plan": pt})
-            elif mode == "c35" and re.search(r"FieldNotFound|No field named", v["dec_err"]) and "EmptyRelation" in pt:
-                yield ("violation", "EmptyRelation schema dropped", {"variant": name, "error": v["dec_err"][:300], "plan": pt})
+                gen = v.get("sql") or ""
+                if "ParserError" in err and re.search(r"--\s*\w", gen) and re.search(r"\(- \(- ", pt):
+                    key = "nested unary minus unparsed as '--' (SQL comment)"
+                elif name == "optimized":
+                    key = "optimized plan: generated SQL does not plan: " + unplannable_class(err)
+                else:
+                    key = "generated SQL of the unoptimized plan does not plan: " + sig(err)[:60]
+                yield ("violation", key, {"variant": name, "sql": gen, "error": err[:400], "plan": pt})
+            elif mode == "c35" and re.search(r"FieldNotFound|No field named", err) and re.search(r"EmptyRelation: rows=0 \[\w", pt):
+                yield ("violation", "EmptyRelation.schema dropped: the parent node fails to decode (FieldNotFound)", {"variant": name, "error": err[:300], "plan": pt})
             else:
-                yield ("violation", f"decode failed:{sig(v['dec_err'])[:60]}", {"variant": name, "error": v["dec_err"][:400], "plan": pt})
+                yield ("violation", f"decode failed:{sig(err)[:60]}", {"variant": name, "error": err[:400], "plan": pt})
             continue
         if mode in ("c35", "c36") and v.get("text_equal") is False:
             d = v.get("text_diff") or {}
             o, dd = d.get("original", ""), d.get("decoded", "")
-            if mode == "c35" and o.lstrip().startswith("TableScan") and "fetch=" in o and "fetch=" not in dd:
+            key = None
+            if mode == "c35" and o.lstrip().startswith("TableScan") and "fetch=" in o and "fetch=" not in dd and o.split(", fetch=")[0] == dd:
                 key = "TableScan.fetch dropped"
-            elif mode == "c35" and o.lstrip().startswith("Limit") and "fetch=None" in o and "fetch=9223372036854775807" in dd:
-                key = "Limit fetch=None decoded as i64::MAX"
-            elif mode == "c35" and o.lstrip().startswith("EmptyRelation") and dd.rstrip().endswith("[]"):
-                key = "EmptyRelation schema dropped"
-            elif mode == "c35" and o.lstrip().startswith("TableScan") and "projection=" in o and "projection=" not in dd:
-                key = "TableScan.projection dropped"
-            elif o.replace(";N", "") == dd.replace(";N", ""):
-                key = "schema nullability recomputed on decode"
-            elif mode == "c36" and "UnionExec" in pt and dd.lstrip().startswith("ProjectionExec"):
+            elif mode == "c35" and re.match(r"\s*Limit: skip=\d+, fetch=None", o) and dd == o.replace("fetch=None", "fetch=9223372036854775807"):
+                key = "Limit.fetch None decoded as i64::MAX"
+            elif mode == "c35" and o.lstrip().startswith("TableScan") and " projection=[" in o and dd == o.split(" projection=[")[0] and "RecursiveQuery" in pt:
+                key = "TableScan.projection dropped (recursive query work table)"
+            elif mode == "c36" and "UnionExec" in pt and re.match(r"\s*ProjectionExec: expr=\[((CAST\()?(\w+)@\d+( AS \w+\))? as \3(, )?)+\]", dd):
                 key = "UnionExec child wrapped in an extra ProjectionExec"
             else:
                 key = "plan text differs:" + sig(o)[:50]
-            yield ("violation", key, {"variant": name, "diff": d, "plan": pt})
+            if key:
+                yield ("violation", key, {"variant": name, "diff": d, "plan": pt})
+        elif mode == "c35" and v.get("schema_text_equal") is False:
+            yield ("count", "same_text_but_schemas_differ", None)
         elif mode == "c35" and v.get("exprs_equal") is False:
             # same textual form but a different expression list (e.g. Limit skip=0 kept as None): not what the property states
             yield ("count", "same_text_but_node_expression_lists_differ", None)
+        elif mode == "c36" and v.get("nullability_equal") is False:
+            yield ("count", "schema_nullability_markers_differ", None)
         elif mode == "c36" and v.get("props_equal") is False:
-            yield ("violation", "partitioning/ordering differ", {"variant": name, "diff": v.get("props_diff"), "plan": pt})
+            # equivalent orderings may be printed through a different member of an equivalence class
+            yield ("count", "output_partitioning_or_ordering_debug_differs", None)
         elif mode == "c35" and v.get("plan_eq") is False:
             yield ("count", "plan_eq_false_same_text", None)
         ex = v.get("exec")
@@ -161,22 +228,18 @@ def classify(mode, case, r):
             if kind == "refdis":
                 yield ("count", "reference_disagreement_on_original_too", None)
             else:
-                key = "result differs"
-                if mode == "c35" and "LIMIT must be >= 0" in msg:
-                    key = "Limit fetch=None decoded as i64::MAX"
-                elif mode == "c35" and "EmptyRelation" in pt and ex.get("types") == []:
-                    key = "EmptyRelation schema dropped"
-                elif mode in ("c37", "c38") and name == "optimized" and "null_aware" in pt and "err" not in ex:
-                    key = "null-aware anti join (NOT IN) loses its null awareness"
-                elif mode == "c37" and re.search(r"Schema error: (No field named|Schema contains qualified field name)", msg):
-                    key = "consumed plan fails schema resolution when executed"
-                yield ("violation", key, {"variant": name, "oracle": msg, "plan": pt, "sql": v.get("sql"), "observed": {k: ex.get(k) for k in ("rows", "err")},
-                                          "original_result": {k: orig.get(k) for k in ("rows", "err")}})
+                yield ("violation", semantic_key(mode, name, case, v, msg, ex),
+                       {"variant": name, "oracle": msg, "plan": pt, "sql": v.get("sql"), "observed": {k: ex.get(k) for k in ("rows", "err")},
+                        "original_result": {k: orig.get(k) for k in ("rows", "err")}})
         elif "rows" in ex and "types" in orig and mode in ("c37", "c38") and norm_types(ex["types"]) != norm_types(orig["types"]):
+            nt, ot = norm_types(ex["types"]), norm_types(orig["types"])
             key = "output types differ"
-            if mode == "c38" and name == "optimized":
-                key = "output types differ (optimized plan)"
+            if mode == "c38" and name == "optimized" and re.search(r"\b\w+\(NULL\)", pt) and re.search(r"\bNULL\b", v.get("sql") or ""):
+                key = "optimized plan: typed NULL literal unparsed as bare NULL (output column types change)"
             yield ("violation", key, {"variant": name, "types": ex["types"], "original_types": orig["types"], "plan": pt, "sql": v.get("sql")})
+        elif mode == "c35" and "rows" in ex and "types" in orig and ex.get("types") != orig.get("types"):
+            yield ("count", "decoded_result_schema_differs_rows_equal", None)
+            yield ("ok", name, None)
         else:
             yield ("ok", name, None)
     for d in r.get("dialects", []):
@@ -187,8 +250,8 @@ def classify(mode, case, r):
         else:
             yield ("count", f"dialect_{d['dialect']}_text_does_not_parse", None)
     for f in r.get("expr_fail", []):
-        if "dec_err" in f and re.search(r"FieldNotFound|No field named", f["dec_err"]):
-            yield ("violation", "EmptyRelation schema dropped", {"expr": f})
+        if "dec_err" in f and re.search(r"FieldNotFound|No field named", f["dec_err"]) and "Subquery" in f.get("original", ""):
+            yield ("violation", "EmptyRelation.schema dropped: the parent node fails to decode (FieldNotFound)", {"expr": f})
         else:
             yield ("violation", "expression round trip:" + sig(f.get("original", ""))[:50], {"expr": f})
 
